@@ -61,7 +61,7 @@ def catalog(env, tier):
         add("g3dense-t2", lambda: E.SlidingTilePuzzle(generator=G(grid_size=3, num_random_moves=4), reward_fn=R.DenseRewardFn(), time_limit=2), 5, time_limit=2, mk=lambda t: E.SlidingTilePuzzle(generator=G(grid_size=3, num_random_moves=4), reward_fn=R.DenseRewardFn(), time_limit=t))
         add("g4t1", lambda: E.SlidingTilePuzzle(generator=G(grid_size=4, num_random_moves=20), time_limit=1), 4, time_limit=1, mk=lambda t: E.SlidingTilePuzzle(generator=G(grid_size=4, num_random_moves=20), time_limit=t))
         if not q:
-            add("g5improved", lambda: E.SlidingTilePuzzle(reward_fn=R.ImprovedDenseRewardFn(), time_limit=60), 64, time_limit=60, mk=lambda t: E.SlidingTilePuzzle(reward_fn=R.ImprovedDenseRewardFn(), time_limit=t))
+            add("g5sparse", lambda: E.SlidingTilePuzzle(reward_fn=R.SparseRewardFn(), time_limit=60), 64, time_limit=60, mk=lambda t: E.SlidingTilePuzzle(reward_fn=R.SparseRewardFn(), time_limit=t))
             add("default", lambda: E.SlidingTilePuzzle(), 505, time_limit=500, batch=2, mk=lambda t: E.SlidingTilePuzzle(time_limit=t))
     elif env == "sudoku":
         add("default", lambda: E.Sudoku(), 30)
